@@ -153,51 +153,81 @@ func runC02(r *Report) {
 		buf := c.Call.Args[1]
 		key := "Reader.Read/ReadAt-destination-clipped"
 		a := read.Params[1]
-		if sl, isSl := buf.(*ssa.Slice); isSl && sl.X == ssa.Value(a) && sl.Low == nil && sl.High != nil {
-			r.Check(isRemaining(sl.High), "R2", key, c.Pos(), "the destination is a[:length-position]", "the destination of ReadAt is sliced to "+exprStr(sl.High)+", not to r.length - r.position: bytes beyond the reader's range (the next file) can be returned")
-			continue
-		}
-		if buf != ssa.Value(a) {
-			r.Fail("R2", key, c.Pos(), "ReadAt is given a destination that is neither the caller's buffer nor a prefix of it")
-			continue
-		}
-		// whole buffer: needs position + len(a) < length (or <=) on the reader's own fields, no store in between
-		var guard *ssa.If
-		for _, g := range guardsOf(c.Block()) {
-			g2 := g.norm()
-			bo, isb := g2.Cond.(*ssa.BinOp)
-			if !isb {
-				continue
+		// fitsGuard: among the guards, one that states position + len(a) <= length on the reader's own fields
+		fitsGuard := func(gs []Guard) *ssa.If {
+			var guard *ssa.If
+			for _, g := range gs {
+				g2 := g.norm()
+				bo, isb := g2.Cond.(*ssa.BinOp)
+				if !isb {
+					continue
+				}
+				// X - Y  as a linear form; we need  position + len(a) - length  (X<Y) or its negation (X>Y)
+				lx, ly := linear(bo.X, 0), linear(bo.Y, 0)
+				if !lx.ok || !ly.ok {
+					continue
+				}
+				diff := lin{coef: map[string]int64{}, ok: true, c: lx.c - ly.c}
+				for k, c := range lx.coef {
+					diff.coef[k] += c
+				}
+				for k, c := range ly.coef {
+					diff.coef[k] -= c
+				}
+				fits := map[string]int64{"position": 1, "len(a)": 1, "length": -1}
+				neg := map[string]int64{"position": -1, "len(a)": -1, "length": 1}
+				lessForm := (bo.Op == token.LSS || bo.Op == token.LEQ) && g2.Pol || (bo.Op == token.GEQ || bo.Op == token.GTR) && !g2.Pol
+				moreForm := (bo.Op == token.GTR || bo.Op == token.GEQ) && g2.Pol || (bo.Op == token.LSS || bo.Op == token.LEQ) && !g2.Pol
+				if (lessForm && linIs(diff, fits)) || (moreForm && linIs(diff, neg)) {
+					guard = g.If
+				}
 			}
-			// X - Y  as a linear form; we need  position + len(a) - length  (X<Y) or its negation (X>Y)
-			lx, ly := linear(bo.X, 0), linear(bo.Y, 0)
-			if !lx.ok || !ly.ok {
-				continue
-			}
-			diff := lin{coef: map[string]int64{}, ok: true, c: lx.c - ly.c}
-			for k, c := range lx.coef {
-				diff.coef[k] += c
-			}
-			for k, c := range ly.coef {
-				diff.coef[k] -= c
-			}
-			fits := map[string]int64{"position": 1, "len(a)": 1, "length": -1}
-			neg := map[string]int64{"position": -1, "len(a)": -1, "length": 1}
-			lessForm := (bo.Op == token.LSS || bo.Op == token.LEQ) && g2.Pol || (bo.Op == token.GEQ || bo.Op == token.GTR) && !g2.Pol
-			moreForm := (bo.Op == token.GTR || bo.Op == token.GEQ) && g2.Pol || (bo.Op == token.LSS || bo.Op == token.LEQ) && !g2.Pol
-			if (lessForm && linIs(diff, fits)) || (moreForm && linIs(diff, neg)) {
-				guard = g.If
-			}
+			return guard
 		}
-		if guard == nil {
-			r.Fail("R2", key, c.Pos(), "ReadAt is given the caller's whole buffer on a path not dominated by r.position + len(a) < r.length (both relative to the reader's range): a read near the end of the range returns bytes that lie beyond it, without EOF")
-			continue
+		// destOK: the value handed to ReadAt is a prefix of the caller's buffer no longer than length - position:
+		// a[:length-position], or a itself under position + len(a) <= length, or a phi of such values
+		// (`if len(a) > remain { a = a[:remain] }`), each edge judged under the guards of that edge.
+		var destOK func(v ssa.Value, gs []Guard, d int) (bool, string)
+		destOK = func(v ssa.Value, gs []Guard, d int) (bool, string) {
+			if d > 4 {
+				return false, "the destination of ReadAt is too indirect to analyse"
+			}
+			switch x := v.(type) {
+			case *ssa.Slice:
+				if x.X == ssa.Value(a) && x.Low == nil && x.High != nil {
+					if isRemaining(x.High) {
+						return true, ""
+					}
+					return false, "the destination of ReadAt is sliced to " + exprStr(x.High) + ", not to r.length - r.position: bytes beyond the reader's range (the next file) can be returned"
+				}
+			case *ssa.Phi:
+				for i, e := range x.Edges {
+					pred := x.Block().Preds[i]
+					egs := append(append([]Guard{}, guardsOf(pred)...), edgeGuard(pred, x.Block())...)
+					if ok, why := destOK(e, egs, d+1); !ok {
+						return false, why
+					}
+				}
+				return true, ""
+			}
+			if v != ssa.Value(a) {
+				return false, "ReadAt is given a destination that is neither the caller's buffer nor a prefix of it"
+			}
+			guard := fitsGuard(gs)
+			if guard == nil {
+				return false, "ReadAt is given the caller's whole buffer on a path not dominated by r.position + len(a) <= r.length (both relative to the reader's range): a read near the end of the range returns bytes that lie beyond it, without EOF"
+			}
+			if pathHas(guard, c, storesWindow) {
+				return false, "position or length is modified between the clipping test and ReadAt"
+			}
+			return true, ""
 		}
-		if pathHas(guard, c, storesWindow) {
-			r.Fail("R2", key, c.Pos(), "position or length is modified between the clipping test and ReadAt")
-			continue
+		ok2, why := destOK(buf, guardsOf(c.Block()), 0)
+		if ok2 {
+			r.Ok("R2", key, c.Pos(), "the destination is the caller's buffer clipped to length - position on every path")
+		} else {
+			r.Fail("R2", key, c.Pos(), "%s", why)
 		}
-		r.Ok("R2", key, c.Pos(), "the whole buffer is used only when position + len(a) < length")
 	}
 	r.Sentinel("R2", nRA, 2)
 	// ---- R3
